@@ -255,7 +255,7 @@ def verify_target(db, reg, key, timeout_ms=20000, want_smt2=False, findings=(), 
                     post.env = dict(env)
                     post.env['result'] = val
                     post.old = snapshot
-                    for i, e in enumerate(c['ensures']):
+                    for i, e in enumerate([] if c.get('assume_ensures') else c['ensures']):
                         g = ex.spec_bool(post, e)
                         ex.oblige(s2, g, '%s.ensures#%d' % (qual, i), 'ensures', key, {'clause': clause_text(e)})
                     if 'modifies' in c:
@@ -305,7 +305,7 @@ def verify_target(db, reg, key, timeout_ms=20000, want_smt2=False, findings=(), 
             obl['%s.cover' % qual] = {'verdict': 'unsat' if normal_exits > 0 else 'vacuous', 'kind': 'vacuity',
                                       'paths': normal_exits, 'ms': 0, 'backend': 'z3',
                                       'clause': 'a normal exit is reachable'}
-        for i, e in enumerate(c['ensures']):
+        for i, e in enumerate([] if c.get('assume_ensures') else c['ensures']):
             obl.setdefault('%s.ensures#%d' % (qual, i), new_ob('ensures', clause_text(e)))
         if 'modifies' in c:
             o_ = obl.setdefault('%s.frame' % qual, new_ob('frame', 'only %s is modified' % (c['modifies'] or 'nothing')))
